@@ -45,7 +45,7 @@ Round(t) == /\ t \in alive /\ UNCHANGED <<alive, mode, gmode>>
 NextThread == ThreadSeq[Cardinality(alive) + 1]
 Next == /\ Len(hist) < MaxDepth
         /\ \/ \E p \in alive : alive # Threads /\ Spawn(p, NextThread)
-           \/ \E t \in alive, m \in ModesUsed : m # mode[t] /\ SetDefault(t, m)
+           \/ \E t \in alive, m \in ModesUsed : SetDefault(t, m)      \* including redundant sets
            \/ \E t \in alive : GetDefault(t)
            \/ \E t \in alive : Round(t)
 Spec == Init /\ [][Next]_vars
